@@ -863,6 +863,51 @@ def failure_pids(f, node):
     return sorted(out)
 
 
+def tree_key(repo, tier, seed):
+    import hashlib
+    h = hashlib.sha256()
+    src = os.path.join(repo, 'regexml', 'src')
+    for fn in sorted(os.listdir(src)):
+        fp = os.path.join(src, fn)
+        if os.path.isfile(fp):
+            h.update(fn.encode())
+            h.update(open(fp, 'rb').read())
+    for fp in (os.path.abspath(__file__), os.path.join(VERIF, 'harness', 'verif_probe.rs')):
+        h.update(open(fp, 'rb').read())
+    h.update(('%s/%s' % (tier, seed)).encode())
+    return h.hexdigest()[:24]
+
+
+def cached_search(repo, tier, seed):
+    """search() once per (source tree, tier, seed): the checks of several properties run side by side and share the result"""
+    import fcntl
+    import json
+    d = os.path.join(VERIF, 'build', 'witness_cache')
+    os.makedirs(d, exist_ok=True)
+    key = tree_key(repo, tier, seed)
+    path = os.path.join(d, key + '.json')
+    with open(os.path.join(d, key + '.lock'), 'w') as lk:
+        fcntl.flock(lk, fcntl.LOCK_EX)
+        if os.path.exists(path):
+            return json.load(open(path))
+        out = search(None, repo, tier, seed)
+        for f in out['failures']:
+            f.setdefault('pids', [f['pid']])
+        tmp = path + '.tmp%d' % os.getpid()
+        json.dump(out, open(tmp, 'w'))
+        os.replace(tmp, path)
+        # keep the cache small
+        olds = sorted((os.path.getmtime(os.path.join(d, x)), x) for x in os.listdir(d) if x.endswith('.json'))
+        for _, x in olds[:-12]:
+            for ext in ('', ):
+                try:
+                    os.remove(os.path.join(d, x))
+                    os.remove(os.path.join(d, x[:-5] + '.lock'))
+                except OSError:
+                    pass
+        return out
+
+
 def replay_text(f):
     """a self-contained test that replays the failing input on the real code"""
     def rs(s):
